@@ -327,7 +327,9 @@ def hash_entries():
                     tags=("hash",)))
     E.append(BEntry("bitwise_mix", [("a", "u128"), ("b", "u128")], "u128", "(a & b) | (a ^ b)",
                     lambda a, b: [(True, ok(vint(z3.BV2Int(
-                        z3.Int2BV(i_(a), 128) | z3.Int2BV(i_(b), 128), False))))],
+                        z3.Int2BV(z3.BV2Int(z3.Int2BV(i_(a), 128) & z3.Int2BV(i_(b), 128), False), 128)
+                        | z3.Int2BV(z3.BV2Int(z3.Int2BV(i_(a), 128) ^ z3.Int2BV(i_(b), 128), False),
+                                    128), False))))],
                     tags=("hash", "bitwise")))
     return E
 
